@@ -39,7 +39,7 @@ CLAIMED = {
          "Structural necessary conditions: the peer address has exactly four writers (two constructions, two post-authentication tails); the tail stores are dominated by a successful open+replay check of the datagram whose source they store; nothing else reads, copies or writes the replay window; the sender uses the address captured under the lock after sealing.",
          "Trusts go/ssa; C03.R1 supplies that readPacketLocked's success implies Check and Open. History-level roaming behaviour is not decided.",
          "DESIGN.md §3 C15"),
- "C19": ("call-graph reachability from the ClientHello arm with who-may-write on every Server field (plus a positive control), dominance with polarity for table inserts / datagram writes / handshake finish in readPacket, fail-closed chain analysis (readPQClientAck <- replay <- decryptCookie <- Open), def-use provenance of the cookie's associated data with an allow-list of injective address transformations, order atoms for the hidden-mode timestamp window",
+ "C19": ("call-graph reachability from the ClientHello arm with who-may-write on every Server field (plus a positive control), dominance with polarity for table inserts / datagram writes / handshake finish in readPacket, fail-closed chain analysis (readPQClientAck <- replay <- decryptCookie <- Open), def-use provenance of the cookie's associated data with an allow-list of injective address transformations, order atoms for the hidden-mode timestamp window plus a typed-syntax unit rule (Unix seconds never compared with a time.Duration converted to a plain integer)",
          "Structural necessary conditions: nothing reachable from the ClientHello arm writes server state; handshake state is stored only after the cookie opened and the ack MAC verified, with exact length; the cookie's AEAD authenticates a hash of the whole client key, the unmodified (or injectively transformed) IP and both port bytes, taken from this datagram, under the current cookie key; in hidden mode every reaction is under !IsHidden or after a verified hidden request with both timestamp tests.",
          "Trusts go/ssa, VTA restricted to package transport for the arm reachability, the injective-transformation allow-list (To16, String, MarshalText). Replays inside the timestamp window and timing are not decided.",
          "DESIGN.md §3 C19"),
@@ -51,8 +51,8 @@ CLAIMED = {
          "Structural necessary conditions: frame decoding and acknowledgement processing are in bounds for every frame; no reachable abort from the receive path and the decoders except tabled assertions; the muxer's receive loop is left only on the stopped state or a transport read error (decode errors filtered); no allocation sized by a peer-supplied length field above one datagram.",
          "As C10. Exempted with checked side conditions: fromInitiateBytes (every call site passes frame.toBytes() of a decoded frame), Reliable.send retransmission loops (bounded by framesToSend / len under r.l). 'Can still be stopped cleanly' is C16; unbounded queues over histories are not decided.",
          "DESIGN.md §3 C11"),
- "C18": ("range analysis of narrowing conversions on the linear-form engine (role query: 8/16-bit conversions of values that derive from len() by dataflow, incl. the byte(x>>8), byte(x) pair), facts taken at the conversion; wire-token sequence extraction over all success paths of each stream writer / reader pair (widths from the static types given to binary.Read/Write, array and literal writes, constant-length ReadFull views; variable segments; nested codecs; switch discriminants) with set comparison; path-sensitive allocation provenance of []byte fields stored by stream decoders",
-         "Structural necessary conditions: (R1) every length narrowed to its wire width is provably within that width at the conversion ('rejected when encoding instead of truncated'); (R2) for the 11 stream codec pairs (Certificate, IDChunk, Name, AgMessage, Intent, the grant-data types, WriteString/ReadString, proxy id) writer and reader agree on the sequence of fixed widths, variable segments and nested codecs for every path variant and discriminant value, and use only full reads; (R4) a decoder never lets a decoded []byte field keep storage from before the call.",
+ "C18": ("range analysis of narrowing conversions on the linear-form engine (role query: 8/16-bit conversions of values that derive from len() by dataflow, incl. the byte(x>>8), byte(x) pair), facts taken at the conversion; wire-token sequence extraction over all success paths of each stream writer / reader pair (widths from the static types given to binary.Read/Write, array and literal writes, constant-length ReadFull views; variable segments; nested codecs; switch discriminants) with set comparison; def-use of Read results (no bare Read whose count is discarded in the decoding packages); path-sensitive allocation provenance of []byte fields stored by stream decoders",
+         "Structural necessary conditions: (R1) every length narrowed to its wire width is provably within that width at the conversion ('rejected when encoding instead of truncated'); (R2) for the 11 stream codec pairs (Certificate, IDChunk, Name, AgMessage, Intent, the grant-data types, WriteString/ReadString, proxy id) writer and reader agree on the sequence of fixed widths, variable segments and nested codecs for every path variant and discriminant value, and use only full reads; (R3) no decoder takes a field with a single Read and drops the count; (R4) a decoder never lets a decoded []byte field keep storage from before the call.",
          "Round-trip equality of values is a functional statement and is not decided: field-to-position attribution inside equal-width runs, value transformations (time to Unix seconds), and the buffer-built codecs (frame headers, exec / userauth / port-forward requests: their readers and writers use different styles; only R1 applies to them) are outside R2. 32-bit prefixes are outside the 8/16-bit rule.",
          "DESIGN.md §3 C18"),
  "C20": ("cursor/bounds analysis of glob.Glob (interval fixpoint over its loop variables), abort reachability, loop-progress analysis on the SSA loop (every path around a loop strictly advances a loop variable, none moves backwards), path analysis of the consumers (argument order, first true element in slice order, merge iff match, once per block)",
@@ -67,12 +67,12 @@ CLAIMED = {
          "Structural necessary conditions of in-order, complete delivery: unacknowledged frames are discarded nowhere but in the acknowledged-drop loop; bytes reach the stream buffer only for the fragment whose number equals the window start, which then advances exactly once; FIN is numbered right after the last data frame and nothing is queued after it; end-of-stream is marked only for the in-order FIN; the retransmission timer is re-armed on every non-failing path that stopped it.",
          "Liveness under outage/recovery, RTO arithmetic, duplicate-ack limits and sequence-number unwrapping are value- and schedule-dependent and are not decided.",
          "DESIGN.md §3 C08"),
- "C09": ("dominance facts (reliability predicate selects the table at every access; peer-initiated creation only on lookup miss + REQ + that frame's fields), ordered-event path analysis of the creators (lock held from id choice to insertion), send-site who-may and per-path counting for the accept queue, induction-shape check of pickTubeID (start at parity, step 2, bounded before narrowing), def-use freshness of frame payloads",
-         "Structural necessary conditions of tube isolation: both tables are keyed and selected consistently by all four accessors and by the receiver; id choice and insertion are atomic; each remotely opened tube is offered exactly once with the opener's type and reliability; one frame per unreliable message and its payload enqueued once; the two ends allocate from disjoint parity classes; decoded payloads do not alias the reused read buffer.",
+ "C09": ("dominance facts (reliability predicate selects the table at every access; peer-initiated creation only on lookup miss + REQ + that frame's fields), ordered-event path analysis of the creators (lock held from id choice to insertion), send-site who-may and per-path counting for the accept queue, induction-shape check of pickTubeID (start at parity, step 2, bounded before narrowing), def-use freshness of frame payloads, sibling constants (id quarantine vs last-ack wait, as multiples of the RTT estimate)",
+         "Structural necessary conditions of tube isolation (incl. a closed tube's id stays reserved at least as many RTTs as the peer may wait in lastAck): both tables are keyed and selected consistently by all four accessors and by the receiver; id choice and insertion are atomic; each remotely opened tube is offered exactly once with the opener's type and reliability; one frame per unreliable message and its payload enqueued once; the two ends allocate from disjoint parity classes; decoded payloads do not alias the reused read buffer.",
          "Late frames of a closed tube reaching a successor with the same id, and interleavings in general, are history-dependent and not decided.",
          "DESIGN.md §3 C09"),
- "C12": ("path analysis of unwrap/Open (success only through the equal edge of a full-width comparison of the Vatte-filled tag with the unsliced argument; tag width via the linear-form engine), def-use roots of the buffers handed to wrap/unwrap, read-modify-write dependence of lane stores",
-         "Three structural necessary conditions: a forged tag cannot pass through a narrow or unchecked comparison and a mismatch yields (nil, error); Seal/Open work on private copies so overlapping caller buffers are not corrupted; the byte-granular state writers preserve the rest of the lane so every key byte reaches the mask. Conformance with the Kravatte-SANSE specification for all keys and lengths is numerical and not decided.",
+ "C12": ("path analysis of unwrap/Open (success only through the equal edge of a full-width comparison of the Vatte-filled tag with the unsliced argument; tag width via the linear-form engine), def-use roots of the buffers handed to wrap/unwrap, read-modify-write dependence of lane stores, per-path counting of the session-parity flip in wrap and unwrap",
+         "Structural necessary conditions (the fourth: wrap and unwrap flip the session parity exactly once on every success path, so the two ends of a multi-message session stay in step): a forged tag cannot pass through a narrow or unchecked comparison and a mismatch yields (nil, error); Seal/Open work on private copies so overlapping caller buffers are not corrupted; the byte-granular state writers preserve the rest of the lane so every key byte reaches the mask. Conformance with the Kravatte-SANSE specification for all keys and lengths is numerical and not decided.",
          "Trusts go/ssa. Nothing is claimed about keccakF1600, rollC/rollE or Vatte/Kra arithmetic.",
          "DESIGN.md §3 C12"),
  "C16": ("lock-discipline analysis driven by the repository's own +checklocks annotations (must-held locksets, guarded-by, annotated-callee obligations), lock-order graph with callee summaries and cycle detection, recognition of close-election idioms (won CAS/Swap, state test + assignment under the object's lock, probed channel under a lock, once-per-object goroutine with per-path counting), dominance of queue sends by the closed flag or a not-closed tube state under the tube lock, ordered-event path analysis of Muxer.Stop / enterClosedState / Reliable.Write, arm/start pairing of the send goroutine",
